@@ -181,11 +181,69 @@ type decRes struct {
 
 // the decode pipeline the API intends: the message decoder delivers the IE contents as octets,
 // the nested list is recovered by the contents' own UnmarshalBinary
+// richMsg: the encoding of a well-formed message of the given type with every optional part present (built through the API)
+func richMsg(typ byte) []byte {
+	var out []byte
+	ev.Guard(func() {
+		u := upc.NewUePolDeliverySer()
+		u.SetHeaderPTI(0x33)
+		u.SetHeaderMessageType(typ)
+		switch typ {
+		case upc.MsgTypeManageUEPolicyCommand:
+			c := upc.NewManageUEPolicyCommand(typ)
+			c.PTI.SetPTI(0x33)
+			lc, _ := buildSubs([]SubS{{Mcc: 466, Mnc: 92, Ins: []InsS{{Upsc: 7, Parts: []PartS{{Ty: 1, C: []int{9, 8, 7}}}}}}})
+			cb, err := lc.MarshalBinary()
+			if err != nil {
+				return
+			}
+			c.UEPolicySectionManagementList.SetIei(0x77)
+			c.UEPolicySectionManagementList.SetLen(uint16(len(cb)))
+			c.UEPolicySectionManagementList.SetUEPolicySectionManagementListContent(cb)
+			c.UEPolicyNetworkClassmark = upc.NewUEPolicyNetworkClassmark()
+			c.UEPolicyNetworkClassmark.SetIei(0x42)
+			_ = c.UEPolicyNetworkClassmark.SetNSSUI(1)
+			u.ManageUEPolicyCommand = c
+		case upc.MsgTypeManageUEPolicyComplete:
+			c := upc.NewManageUEPolicyComplete(typ)
+			c.PTI.SetPTI(0x33)
+			u.ManageUEPolicyComplete = c
+		case upc.MsgTypeManageUEPolicyReject:
+			c := upc.NewManageUEPolicyReject(typ)
+			c.PTI.SetPTI(0x33)
+			rc, _ := buildSrs([]SubResS{{Mcc: 466, Mnc: 92, Rs: []ResS{{Upsc: 7, Ord: 1, Cause: 111}}}})
+			cb, err := rc.MarshalBinary()
+			if err != nil {
+				return
+			}
+			c.UEPolicySectionManagementResult.SetIei(0x78)
+			c.UEPolicySectionManagementResult.SetLen(uint16(len(cb)))
+			c.UEPolicySectionManagementResult.SetUEPolicySectionManagementResultContent(cb)
+			u.ManageUEPolicyReject = c
+		default:
+			return
+		}
+		if b, err := u.UePolDeliverySerEncode(); err == nil {
+			out = b
+		}
+	})
+	return out
+}
+
 func decodeOp(op string, b []byte) decRes {
 	r := decRes{p: emptyProj(), mm: [][]int{}}
 	switch op {
 	case "DecodeMsg":
 		d := upc.NewUePolDeliverySer()
+		// every second input (by length) is decoded into a container that has ALREADY received a rich message of the same type
+		// (a command with sublists and classmark, a reject with results, a complete): the caller keeps one container between
+		// messages, and what it reads afterwards is the new message only.  (Another TYPE would leave that type's stale body
+		// pointer behind, about which the property says nothing: no such case is made.)
+		if len(b) >= 2 && len(b)%2 == 1 {
+			if pre := richMsg(b[1]); pre != nil {
+				_ = d.UePolDeliverySerDecode(pre)
+			}
+		}
 		if e := d.UePolDeliverySerDecode(b); e != nil {
 			r.err = true
 			return r
@@ -722,13 +780,18 @@ func (s *sess) plmnRow(which, axis string, fixed int, vary []int) {
 	}
 	e := PlmnEv{Op: "PlmnRow", Which: which, Axis: axis, Fixed: fixed, Vary: vary, Errs: []bool{}, Octs: [][]int{}, Rt: [][]int{}, Rto: [][]int{}}
 	pi, hang := guarded(func() {
-		for _, v := range vary {
+		for vi, v := range vary {
 			mcc, mnc := fixed, v
 			if axis == "mnc" {
 				mcc, mnc = v, fixed
 			}
+			// every second entry: the object already carries ANOTHER PLMN (2- and 3-digit MNCs alternate) when the row's PLMN is set
+			prevM := [][2]int{{310, 410}, {208, 93}, {901, 70}, {999, 999}}[(vi/2)%4]
 			if which == "sub" {
 				var sl upc.UEPolicySectionManagementSubList
+				if vi%2 == 1 {
+					_ = sl.SetPlmnDigit(prevM[0], prevM[1])
+				}
 				err := sl.SetPlmnDigit(mcc, mnc)
 				e.Errs = append(e.Errs, err != nil)
 				e.Octs = append(e.Octs, []int{int(sl.PlmnDigit1), int(sl.PlmnDigit2), int(sl.PlmnDigit3)})
@@ -745,6 +808,9 @@ func (s *sess) plmnRow(which, axis string, fixed int, vary []int) {
 				e.Rt, e.Rto = append(e.Rt, rt), append(e.Rto, rto)
 			} else {
 				var sr upc.UEPolicySectionManagementSubResult
+				if vi%2 == 1 {
+					_ = sr.SetPlmnDigit(prevM[0], prevM[1])
+				}
 				err := sr.SetPlmnDigit(mcc, mnc)
 				e.Errs = append(e.Errs, err != nil)
 				e.Octs = append(e.Octs, []int{int(sr.PlmnDigit1), int(sr.PlmnDigit2), int(sr.PlmnDigit3)})
@@ -784,12 +850,12 @@ type Case struct {
 	Kind  string          `json:"kind"`
 	Val   json.RawMessage `json:"val"`
 	Ops   []HOp           `json:"ops"`
-	St    *St    `json:"st"`
-	Jobs  []Job  `json:"jobs"`
-	Which string `json:"which"`
-	Axis  string `json:"axis"`
-	Fixed int    `json:"fixed"`
-	Vary  []int  `json:"vary"`
+	St    *St             `json:"st"`
+	Jobs  []Job           `json:"jobs"`
+	Which string          `json:"which"`
+	Axis  string          `json:"axis"`
+	Fixed int             `json:"fixed"`
+	Vary  []int           `json:"vary"`
 }
 
 type sess struct{ w *ev.Writer }
@@ -886,6 +952,13 @@ func replay(in, out string) {
 }
 
 // ---------------------------------------------------------------- recorded (driver-chosen, seeded) runs
+func bigParts() []int {
+	if ev.Thorough() {
+		return []int{32750, 32761, 32768, 40000, 65000, 65519}
+	}
+	return []int{32761, 33000}
+}
+
 func record(out string) {
 	rng := ev.Rng()
 	s := &sess{w: ev.Create(out)}
@@ -947,6 +1020,16 @@ func record(out string) {
 		if enc := s.build(st); len(enc) > 0 && len(enc) < 200 {
 			encs = append(encs, enc)
 		}
+	}
+	// one part so large that the lengths of part, instruction and sublist cross 2^15 (a signed 16-bit length would be negative)
+	// and, in thorough, approach 2^16
+	for _, n := range bigParts() {
+		c := make([]int, n)
+		for i := range c {
+			c[i] = (i*7 + 3) % 256
+		}
+		s.build(St{Pti: 1, Type: 1, Iei: 0x77, Srs: []SubResS{}, Cm: []int{},
+			Subs: []SubS{{Mcc: 208, Mnc: 93, Ins: []InsS{{Upsc: 5, Parts: []PartS{{Ty: 1, C: c}}}}}}})
 	}
 	// histories on one live object: encode, append fresh items, encode again; adopt decoded octets
 	mustJSON := func(v interface{}) json.RawMessage {
